@@ -46,7 +46,7 @@ def run_call(harness_path: str, call_expr: str, verbose: bool = True) -> int:
     return 0
 
 
-def write_replay(path: str, prop: str, harness_path: str, call_expr: str, note: str = "") -> str:
+def write_replay(path: str, prop: str, harness_path: str, call_expr: str, note: str = "", env: dict | None = None) -> str:
     os.makedirs(os.path.dirname(path), exist_ok=True)
     rel = os.path.relpath(harness_path, VERIF_ROOT)
     with open(path, "w") as f:
@@ -56,6 +56,7 @@ def write_replay(path: str, prop: str, harness_path: str, call_expr: str, note: 
             f"# {note}\n"
             "# run: /verif/.venv/bin/python <this file>   (exit 1 = violation reproduces on the real code)\n"
             "import os, sys\n"
+            f"os.environ.update({ {k: str(v) for k, v in (env or {}).items()}!r})\n"
             f"sys.path.insert(0, {VERIF_ROOT!r})\n"
             "from lib.replay import run_call\n"
             f"sys.exit(run_call({rel!r}, {call_expr!r}))\n"
